@@ -606,8 +606,9 @@ class GIRParser(object):
             func.is_method = True
             obj.methods.append(func)
         for ctor in self._find_children(node, _corens('constructor')):
-            obj.constructors.append(
-                self._parse_function_common(ctor, ast.Function, obj))
+            func = self._parse_function_common(ctor, ast.Function, obj)
+            func.is_constructor = True
+            obj.constructors.append(func)
         for callback in self._find_children(node, _corens('callback')):
             obj.fields.append(
                 self._parse_function_common(callback, ast.Callback, obj))
